@@ -431,7 +431,9 @@ def w_undecodable(ctx, wid, seed):
     import random
     from ..gen import spends
     rnd = random.Random(seed)
-    for ss, spk in ((b'\x51\x02\xaa', b'\x51'), (b'\x51', b'\x51\x02\xaa'), (b'\x05\xaa', b'\x51\x87'), (b'\x51', b'\x4c'), (b'\x4d\xff', b'\x51'), (b'\x51', b'\x51\x4e\x01\x00')):
+    bad_redeem = [b'\x51\x05\x01', b'\x4c', b'\x51\x4d\xff']
+    p2sh_pairs = [(R.push_enc(rd), b'\xa9\x14' + R.ripemd(R.sha256(rd)) + b'\x87') for rd in bad_redeem]
+    for ss, spk in tuple(p2sh_pairs) + ((b'\x51\x02\xaa', b'\x51'), (b'\x51', b'\x51\x02\xaa'), (b'\x05\xaa', b'\x51\x87'), (b'\x51', b'\x4c'), (b'\x4d\xff', b'\x51'), (b'\x51', b'\x51\x4e\x01\x00')):
         fund, pos = spends.mk_funding(rnd, spk, 1000)
         tx, idx, _ = spends.mk_spending(rnd, fund, pos, 1)
         tx.vin[idx]['script'] = ss
